@@ -62,8 +62,12 @@ type c19State struct {
 	deadline int64
 	now      int64
 	ext      string
+	ret      string // non-empty: SendRequest has returned this class; it still has to read the clock
+	armed    bool   // the timeout timer exists (it is created after the request was published; time may pass before)
 }
 
+// c19Model explores every interleaving of the environment, the clock and SendRequest and returns the set of
+// allowed outcomes "class|extension callbacks|elapsed virtual time at which the caller reads the clock".
 func c19Model(script []string) map[string]bool {
 	out := map[string]bool{}
 	seen := map[c19State]bool{}
@@ -73,25 +77,37 @@ func c19Model(script []string) map[string]bool {
 			return
 		}
 		seen[s] = true
-		// SendRequest: timer
-		if s.now >= s.deadline {
-			out["error:system.timeout|"+s.ext] = true
-		}
-		// SendRequest: message
-		if s.chFull {
-			m := s.ch
-			if cl := c19Class(m); cl != "" {
-				out[cl+"|"+s.ext] = true
-			} else {
+		if s.ret != "" {
+			// the caller reads the clock now, or later
+			out[fmt.Sprintf("%s|%s|%v", s.ret, s.ext, time.Duration(s.now))] = true
+		} else if !s.armed {
+			n := s
+			n.armed = true
+			n.deadline = s.now + int64(c19Timeout)
+			rec(n)
+		} else {
+			// SendRequest: timer
+			if s.now >= s.deadline {
+				n := s
+				n.ret = "error:system.timeout"
+				rec(n)
+			}
+			// SendRequest: message
+			if s.chFull {
+				m := s.ch
 				n := s
 				n.chFull, n.ch = false, ""
-				switch m {
-				case "pre30":
-					n.deadline = s.now + int64(30*time.Millisecond)
-					n.ext += "30ms,"
-				case "pre3000":
-					n.deadline = s.now + int64(3000*time.Millisecond)
-					n.ext += "3s,"
+				if cl := c19Class(m); cl != "" {
+					n.ret = cl
+				} else {
+					switch m {
+					case "pre30":
+						n.deadline = s.now + int64(30*time.Millisecond)
+						n.ext += "30ms,"
+					case "pre3000":
+						n.deadline = s.now + int64(3000*time.Millisecond)
+						n.ext += "3s,"
+					}
 				}
 				rec(n)
 			}
@@ -110,16 +126,21 @@ func c19Model(script []string) map[string]bool {
 				n.ei++
 				n.eWake = s.now + int64(d)
 				rec(n)
-			} else if !s.chFull {
+			} else if !s.chFull && s.ret == "" {
 				n := s
 				n.ei++
 				n.chFull, n.ch = true, st
+				rec(n)
+			} else if s.ret != "" {
+				// after the return the inbox is unsubscribed: the message goes nowhere
+				n := s
+				n.ei++
 				rec(n)
 			}
 		}
 		// clock: advance to the earliest pending deadline
 		next := int64(-1)
-		if s.deadline > s.now {
+		if s.ret == "" && s.armed && s.deadline > s.now {
 			next = s.deadline
 		}
 		if s.eWake > s.now && (next < 0 || s.eWake < next) {
@@ -131,7 +152,7 @@ func c19Model(script []string) map[string]bool {
 			rec(n)
 		}
 	}
-	rec(c19State{eWake: -1, deadline: int64(c19Timeout)})
+	rec(c19State{eWake: -1})
 	return out
 }
 
@@ -147,7 +168,7 @@ func c19Explore(c c19Case, bound int, emit func(desc string)) (observed map[stri
 	allowed := c19Model(c.Script)
 	switch c.Fault {
 	case "marshal", "subscribe", "publish":
-		allowed = map[string]bool{"error:system.internalError|": true}
+		allowed = map[string]bool{"error:system.internalError||0s": true}
 	}
 	observed = map[string]bool{}
 	body := func() {
@@ -188,7 +209,7 @@ func c19Explore(c c19Case, bound int, emit func(desc string)) (observed map[stri
 					cls = "result-with-wrong-data"
 				}
 			}
-			vsched.Emit(scen.Mon, fmt.Sprintf("returned %s|%s elapsed=%v", cls, ext, el))
+			vsched.Emit(scen.Mon, fmt.Sprintf("returned %s|%s|%v", cls, ext, el))
 			vsched.Send(done, struct{}{})
 		})
 		if c.Fault == "none" {
@@ -240,14 +261,14 @@ func c19Explore(c c19Case, bound int, emit func(desc string)) (observed map[stri
 					al = append(al, k)
 				}
 				sort.Strings(al)
-				v = append(v, fmt.Sprintf("SendRequest returned %q (class|extension callbacks); the reference model allows only %v", ret, al))
+				v = append(v, fmt.Sprintf("SendRequest returned %q (class|extension callbacks|elapsed); the reference model allows only %v", ret, al))
 			}
 			if subs != unsub {
 				v = append(v, fmt.Sprintf("inbox subscription not released: %d subscribe, %d unsubscribe", subs, unsub))
 			}
 			if c.Fault != "none" {
 				for _, e := range r.Events {
-					if strings.HasPrefix(e.Text, "returned ") && !strings.HasSuffix(e.Text, "elapsed=0s") {
+					if strings.HasPrefix(e.Text, "returned ") && !strings.HasSuffix(e.Text, "|0s") {
 						v = append(v, "a failing connection operation made SendRequest wait: "+e.Text)
 					}
 				}
@@ -304,7 +325,7 @@ func runC19(c *seqCtx) {
 			return
 		}
 	}
-	c.Sample("script pre30,s200,result => allowed {error:system.timeout|30ms,  result|30ms,}")
+	c.Sample("script pre30,s200,result => allowed {error:system.timeout|30ms,|30ms ... result|30ms,|0s ...}")
 	for _, f := range []string{"marshal", "subscribe", "publish"} {
 		if c.Mine() {
 			run(c19Case{Fault: f})
@@ -352,7 +373,17 @@ func replayC19(input string) []string {
 		cs.Script = strings.Split(f[0], ",")
 	}
 	var out []string
-	obs, _ := c19Explore(cs, 2, func(desc string) { out = append(out, "C19: "+desc) })
+	obs, ex := c19Explore(cs, 2, func(desc string) { out = append(out, "C19: "+desc) })
+	if len(ex.Violations) > 0 {
+		r, _ := ex.RunOne(ex.Violations[0].Choices, true)
+		fmt.Println("--- trace of the first violating schedule")
+		for _, l := range r.Trace {
+			fmt.Println(l)
+		}
+		for _, e := range r.Events {
+			fmt.Println("   obs", e.Step, e.Text)
+		}
+	}
 	b, _ := json.Marshal(obs)
 	fmt.Println("observed outcomes:", string(b))
 	m, _ := json.Marshal(c19Model(cs.Script))
